@@ -10,7 +10,7 @@ import random
 
 from vmon import core, inventory, mutate, objgen, pipeline, roundtrip
 
-MUTANTS = {'quick': 80, 'thorough': 2500}
+MUTANTS = {'quick': 80, 'thorough': 8000}
 
 
 class Check(core.CheckBase):
